@@ -121,6 +121,7 @@ class Engine(FsMixin, ExprMixin, StmtMixin, CallMixin, SpecMixin, BuiltinMixin, 
         self.glob_results = []
         self.seq_facts = {}     # name of a sequence constant -> [fn(k) -> z3 Bool]: element-wise facts, instantiated on access
         self.sorted_info = {}
+        self.loop_keys_seen = set()
         self._starred_calls = set()
         self.branch_cov = {}
         self._rel_of = getattr(self, '_rel_of', {})
@@ -273,6 +274,7 @@ class Engine(FsMixin, ExprMixin, StmtMixin, CallMixin, SpecMixin, BuiltinMixin, 
         self.fn_locals = {x.id for x in ast.walk(fn) if isinstance(x, ast.Name) and isinstance(x.ctx, ast.Store)}
         self.covered_lines = set()
         self.branch_cov = {}
+        self.loop_keys_seen = set()
         self.merging = c.get("merge", True)
         self.effect_guards = c.get("effect_guards", {})
         self.current_key = key
@@ -333,6 +335,29 @@ class Engine(FsMixin, ExprMixin, StmtMixin, CallMixin, SpecMixin, BuiltinMixin, 
         for ob in self.obligations:
             have = {f.get_id() for f in ob.pc}
             ob.pc += [f for f in self.global_facts if f.get_id() not in have]
+        # a loop contract whose key matches no loop of the body (renamed loop variable, restructured loop): the sidecar no longer
+        # describes this body - nothing is concluded about the function (undecided), rather than failing obligations for lack
+        # of an invariant
+        all_loop_keys = set()
+        ords = {}
+        for x in ast.walk(fn):
+            if isinstance(x, (ast.For, ast.AsyncFor)):
+                k_ = ast.unparse(x.target)
+                ords[k_] = ords.get(k_, 0) + 1
+                all_loop_keys.update((k_, f"{k_}#{ords[k_]}"))
+            elif isinstance(x, ast.While):
+                all_loop_keys.update(("while", "while@" + ast.unparse(x.test)[:40]))
+            elif isinstance(x, (ast.ListComp, ast.SetComp, ast.DictComp, ast.GeneratorExp)):
+                for g_ in x.generators:
+                    k_ = ast.unparse(g_.target)
+                    all_loop_keys.update((k_, f"{k_}#1", f"{k_}#2"))
+        stale = sorted(k for k in c.get("loops", {}) if k not in all_loop_keys and k not in self.loop_keys_seen)
+        if stale:
+            report["error"] = "the sidecar contract does not match the body: no loop for the loop contract(s) " + ", ".join(repr(k) for k in stale)
+            report["obligations"] = []
+            report["unreached"] = []
+            report.update(trivial=[], undecided=[], outcomes=kinds, paths=len(outs))
+            return report
         # statements of the function never reached with a feasible state: dead under the contract (candidates for vacuity)
         skip = set()
         for x in ast.walk(fn):
